@@ -56,6 +56,30 @@ rotated by `(cr, sr)` -/
 def vortex (mI ch sh c s cr sr : K) : M22 K :=
   sandwich cr sr ((M22.smul sh ⟨c, s, s, -c⟩).add ⟨mI * ch, Num.ofInt 0, Num.ofInt 0, mI * ch⟩)
 
+/-! ## Jones vectors -/
+/-- a Jones vector `(x, y)` -/
+structure V2 (K : Type) where
+  x : K
+  y : K
+
+namespace V2
+def zero : V2 K := ⟨Num.ofInt 0, Num.ofInt 0⟩
+/-- overwrite component `i` (the effect of `pol_vector[i] = v`, `pol_vector[..., i, 0] = v`) -/
+def set (v : V2 K) (i : Nat) (e : K) : V2 K :=
+  match i with
+  | 0 => { v with x := e }
+  | _ => { v with y := e }
+def smul (k : K) (v : V2 K) : V2 K := ⟨k * v.x, k * v.y⟩
+end V2
+
+/-- `J · v` -/
+def M22.mulVec (m : M22 K) (v : V2 K) : V2 K := ⟨m.a * v.x + m.b * v.y, m.c * v.x + m.d * v.y⟩
+
+/-- `linear_pol_vector`: `(cos φ, sin φ)` -/
+def linPol (c s : K) : V2 K := ⟨c, s⟩
+/-- `circular_pol_vector`: `(1, ±i)/√2`, `r2 = √2` -/
+def circPol (I r2 : K) (left : Bool) : V2 K := ⟨Num.ofInt 1 / r2, (if left then I else -I) / r2⟩
+
 /-! ## Pauli basis -/
 def pauli (I : K) : Nat → M22 K
   | 0 => ⟨Num.ofInt 1, Num.ofInt 0, Num.ofInt 0, Num.ofInt 1⟩
@@ -115,6 +139,10 @@ def muellerF (J : M22 C) : List Float :=
 def muellerImF (J : M22 C) : List Float :=
   let M := muellerC Cx.conj I J
   (List.range 16).map fun k => (M (k / 4) (k % 4)).im
+def linPolF (φ : Float) : V2 C := linPol (re (Float.cos φ)) (re (Float.sin φ))
+def circPolF (left : Bool) : V2 C := circPol I (re (Float.sqrt 2)) left
+/-- polariser at `θ` applied to light linearly polarised at `φ` -/
+def malusF (θ φ : Float) : V2 C := (diattenuatorF 0 θ).mulVec (linPolF φ)
 end Exec
 
 end Model.C20
